@@ -108,9 +108,22 @@ def origin_str(o):
 
 
 def run_verus_unit(unit, work, seed=None, extra_smt=None):
+    # a function whose body uses a construct Verus cannot take is retried as external_body (contract kept, body
+    # undecided -> only a natively replayed counterexample can raise an alarm for it)
+    force = set()
+    for attempt in range(4):
+        r = run_verus_unit_once(unit, work, seed, force)
+        new = set(r.pop('unsupported_fns', [])) - force
+        if not new:
+            return r
+        force |= new
+    return r
+
+
+def run_verus_unit_once(unit, work, seed, force):
     t0 = time.time()
     try:
-        out_rs, meta = vx.build_unit(unit, work)
+        out_rs, meta = vx.build_unit(unit, work, force_external=force)
     except vx.LostAnchor as e:
         raise Inconclusive("lost anchor in unit %s: %s" % (unit, e))
     cmd = ['verus', out_rs, '--output-json', '--time-expanded', '--multiple-errors', '50',
@@ -140,6 +153,7 @@ def run_verus_unit(unit, work, seed=None, extra_smt=None):
         diags.append(d)
     failures = []
     tool_errors = []
+    unsupported_fns = []
     for d in diags:
         msg = d['message']
         kind = None
@@ -151,6 +165,15 @@ def run_verus_unit(unit, work, seed=None, extra_smt=None):
             tool_errors.append("resource: " + msg)
             continue
         if kind is None or d.get('code'):
+            # unsupported construct inside a source function: retry with that body skipped
+            ufn = None
+            for sp in d['spans']:
+                idx = sp['line_start'] - 1
+                if 0 <= idx < len(linemap) and linemap[idx]['origin'][0] == 'src' and linemap[idx]['fn']:
+                    ufn = linemap[idx]['fn']
+            if ufn and not d.get('code') and re.search(r'not supported|does not yet support|not yet supported|unsupported', msg) and ufn not in force:
+                unsupported_fns.append(ufn)
+                continue
             tool_errors.append("%s @ %s" % (msg, [(s['line_start']) for s in d['spans']][:2]))
             continue
         prim = [s for s in d['spans'] if s['is_primary']]
@@ -190,8 +213,10 @@ def run_verus_unit(unit, work, seed=None, extra_smt=None):
         failures.append(dict(obligation=ob_id, owner=owner, fn=fn, kind=kind, where=where, message=msg,
                              rendered=d.get('rendered', '')[:3000]))
     vr = j.get('verification-results', {})
-    if vr.get('encountered-vir-error'):
+    if vr.get('encountered-vir-error') and not unsupported_fns:
         tool_errors.append('VIR error')
+    if unsupported_fns:
+        tool_errors = []
     if not diags and not vr.get('success', False):
         tool_errors.append('verus failed without diagnostics: ' + r.stderr[-600:])
     # per function stats
@@ -203,7 +228,7 @@ def run_verus_unit(unit, work, seed=None, extra_smt=None):
                                    rlimit=fb['rlimit'], success=fb['success']))
     except Exception:
         pass
-    return dict(unit=unit, verified=vr.get('verified', 0), errors=vr.get('errors', 0), failures=failures,
+    return dict(unsupported_fns=unsupported_fns, unit=unit, verified=vr.get('verified', 0), errors=vr.get('errors', 0), failures=failures,
                 tool_errors=tool_errors, fstats=fstats, meta=meta, wall_s=round(time.time() - t0, 2),
                 smt_ms=j.get('times-ms', {}).get('smt', {}).get('smt-run', 0), cmd=' '.join(cmd[:1] + ['<unit>.rs'] + cmd[2:]),
                 rs=out_rs)
@@ -290,6 +315,7 @@ def decide(prop, cfg, tier, seed, work, args, t0):
     obligations = []
     failed = []
     foreign = []
+    lost = {}   # fn -> [anchors]: proof text that no longer matches the code
     functions = []
     assumptions = []
     rules = []
@@ -306,6 +332,8 @@ def decide(prop, cfg, tier, seed, work, args, t0):
                 failed.append(dict(fl, unit=ur['unit']))
             else:
                 foreign.append(dict(obligation=fl['obligation'], owner=fl['owner'], unit=ur['unit'], message=fl['message']))
+        for la in meta['report'].get('lost_anchors', []):
+            lost.setdefault(la['fn'], []).append("%s anchor %r" % (la['kind'], la['anchor']))
         for f in meta['report']['functions']:
             functions.append(dict(f, unit=ur['unit']))
         for a in meta['report']['assumptions']:
@@ -392,6 +420,16 @@ def decide(prop, cfg, tier, seed, work, args, t0):
         print("NOTE: known finding %s did not fail in this run" % k['obligation'])
 
     out_lines = []
+    # functions whose proof text lost its anchors: their failures are UNDECIDED unless a counterexample replays natively
+    undecided = []
+    for fn, anchors in lost.items():
+        owned_here = any(o['fn'] == fn for o in obligations)
+        if owned_here and any(('loop anchor' in a or 'unsupported-construct' in a) for a in anchors) and not any(v['fn'] == fn for v in violations):
+            violations.append(dict(obligation='%s#body-undecided' % fn, owner=prop, fn=fn, kind='lost-proof', where=fn,
+                                   message='loop contract lost its anchor or the body uses a construct outside Verus: body unproven', rendered='', unit='-'))
+    for v in violations:
+        if v['fn'] in lost:
+            v['undecided'] = True
     for v in violations:
         rdir = os.path.join(HERE, 'replays', prop)
         os.makedirs(rdir, exist_ok=True)
@@ -406,6 +444,9 @@ def decide(prop, cfg, tier, seed, work, args, t0):
                 found = kanirun.find_counterexample(prop, v, cfg, work)
             except Exception as e:  # the finder never decides anything
                 replay['finder_error'] = str(e)[:500]
+        if v.get('undecided') and not (found and found.get('replayed_natively')):
+            undecided.append("%s (lost: %s)" % (v['obligation'], '; '.join(lost.get(v['fn'], []))))
+            continue
         if found:
             replay['counterexample'] = found
         else:
@@ -456,15 +497,18 @@ def decide(prop, cfg, tier, seed, work, args, t0):
     )
     ev = dict(property_id=prop, tier=tier, seed=seed, level=level, coverage=coverage,
               assumptions=sorted(set(assumptions + cfg.get('assumptions', []))),
-              wall_s=round(time.time() - t0, 2), violations=len(violations))
+              wall_s=round(time.time() - t0, 2), violations=len(out_lines))
     os.makedirs(os.path.join(HERE, 'evidence'), exist_ok=True)
     with open(os.path.join(HERE, 'evidence', prop + '.json'), 'w') as f:
         json.dump(ev, f, indent=1)
+    n_real = len(out_lines)
+    if undecided and n_real == 0:
+        raise Inconclusive("proof text lost its anchors and no counterexample replayed: " + ' | '.join(undecided)[:1500])
     for ln in out_lines:
         print(ln)
     print("%s: %d obligations, %d discharged, %d known findings, %d violations, %d bounded checks, %.1fs" % (
         prop, n_obl, disc, kf_obl, len(violations), len(bounded_checks), time.time() - t0))
-    return 1 if violations else 0
+    return 1 if out_lines else 0
 
 
 if __name__ == '__main__':
